@@ -309,6 +309,7 @@ def run_sharded(ctx, argv_for_shard, shard_paths, timeout=3000):
         procs.append(subprocess.Popen([exe] + argv_for_shard(p), stdout=subprocess.PIPE, stderr=subprocess.PIPE,
                                       text=True, env=env))
     merged = dict(executed=0, failures_by_key={}, examples={}, ops={}, samples=[], hangs=0, skipped_pre=0)
+    infra_errs = []
     for pr in procs:
         try:
             out, err = pr.communicate(timeout=timeout)
@@ -319,7 +320,10 @@ def run_sharded(ctx, argv_for_shard, shard_paths, timeout=3000):
             ctx.failure('crash:' + argv_for_shard('')[0], 'a driver process died inside goatcore: ' + err[:1800], dict(stderr=err[:8000]))
             continue
         if pr.returncode != 0:
-            raise Infra('harness shard failed rc=%d: %s' % (pr.returncode, err[-3000:]))
+            # a shard that died for a reason of its own is no verdict; but it must not hide what the OTHER shards
+            # observed of the real code (decided after the loop)
+            infra_errs.append('harness shard failed rc=%d: %s' % (pr.returncode, err[-3000:]))
+            continue
         lines = [l for l in out.splitlines() if l.strip()]
         r = json.loads(lines[-1])
         merged['executed'] += r.get('executed', 0)
@@ -346,16 +350,31 @@ def run_sharded(ctx, argv_for_shard, shard_paths, timeout=3000):
         for k in ('calls', 'clean_runs', 'clean_cases', 'deviation_cases', 'repaired_like', 'unreplayable_order'):
             if k in r:
                 merged[k] = merged.get(k, 0) + r[k]
+    if infra_errs:
+        if not any(not k.startswith('infra') for k in merged['failures_by_key']):
+            raise Infra(infra_errs[0])
+        log('NOTE: %d shard(s) died for reasons of their own (%s ...); the other shards observed failures of the real code, which are reported' % (len(infra_errs), infra_errs[0][:300]))
+        ctx.assumptions.append('%d harness shard(s) died (infrastructure); the failures reported come from the remaining shards' % len(infra_errs))
     return merged
 
 
 def report_case_failures(ctx, merged, what):
     """turn harness failures into KNOWN-FINDING / VIOLATION lines"""
+    infra = []
+    real = 0
     for key, n in sorted(merged['failures_by_key'].items()):
         ex = merged['examples'].get(key, [{}])[0]
         if key.startswith('infra'):
-            raise Infra('%s: harness infrastructure failure %s: %s' % (what, key, ex))
+            infra.append('%s: harness infrastructure failure %s: %s' % (what, key, ex))
+            continue
+        real += 1
         ctx.failure(key, '%s: %d case(s), e.g. %s on %s: %s' % (what, n, ex.get('op'), ex.get('backend'), str(ex.get('what'))[:1500]), ex)
+    if infra:
+        # an infrastructure failure is never a verdict -- and never hides one: with real failures reported it is a note
+        if not real:
+            raise Infra(infra[0])
+        log('NOTE: ' + infra[0][:600])
+        ctx.assumptions.append('some cases could not be run (infrastructure): ' + infra[0][:300])
 
 
 def validate_trace(ctx, moddir, module, cfg, tracefile, max_rounds=6, key_of=None, what='trace', depthfirst=False, timeout=900):
